@@ -10,7 +10,8 @@ from ..core import Part, Violation, guard
 
 core.use_repo()
 
-RULE = ("Hypothesis-generated training lists biased to short passwords over 2-4 letters (n-gram 2-4; lists dominated by passwords "
+RULE = ("Every listed level (1..18) is also compared with an independent dynamic-programming count of the level's strings. "
+        "Hypothesis-generated training lists biased to short passwords over 2-4 letters (n-gram 2-4; lists dominated by passwords "
         "whose length equals the n-gram size, or by a single length so that the length cost is 0) through the real trainer. "
         "Oracle: for every level listed in omen_keyspace.txt whose reference size is <= 1500 and level <= 11 (quick) / <= 50000 and all levels (thorough) the real MarkovCracker (real "
         "load_rules on the written ruleset) is run to exhaustion and the number of distinct strings must equal the saved "
@@ -79,6 +80,17 @@ def prop(case, rec):
                             f'({unparseable} training passwords have no OMEN level)', dict(case, levels=[L]))
     if unparseable:
         rec.cls('list_has_passwords_without_omen_level')
+    # every listed level, however high or large, against the independent count of the level's strings (dynamic programming over
+    # the files the guesser reads; no enumeration). The generator itself is run below on the levels that are small enough.
+    for L in sorted(saved_ks):
+        ref_n = omen_ref.count_level(gm, L)
+        if ref_n <= 10 ** 9:
+            rec.cls('level_counted_by_reference')
+            if L >= 12:
+                rec.cls('level_12_to_18_counted_by_reference')
+            if ref_n != saved_ks[L]:
+                raise Violation('keyspace', f'level {L} (n-gram {n}): omen_keyspace.txt says {saved_ks[L]}, the level holds {ref_n} distinct strings '
+                                f'(reference count over IP/CP/LN as the guesser loads them)', dict(case, levels=[L]))
     for L in sorted(saved_ks):
         if L > case.get('max_level', 18):
             rec.skip('level_above_quick_tier_bound')
